@@ -3,6 +3,7 @@ import ast
 import z3
 
 from .values import (
+    is_enum, mk_enum, enum_map, enum_eq, enum_less,
     Sym, Struct, PList, PDict, PSet, Inst, SymSeq, SymSet, SymMap, FuncRef,
     ClassRef, ExtRef, BoundMethod, LambdaVal, PyFunc, Unsupported, term, wrap,
     zand, zor, znot, zeq, zite,
@@ -38,6 +39,10 @@ def arith(ip, opn, a, b):
             if m is None:
                 raise Unsupported(f"arithmetic on {s.cls}")
             return m(ip, opn, a, b)
+    if is_enum(a):
+        a = ip.vc.concretize(a)
+    if is_enum(b):
+        b = ip.vc.concretize(b)
     if opn == "neg":
         if isinstance(a, (int, float)):
             return -a
@@ -380,6 +385,9 @@ def _norm_index(n, i):
 
 def subscript(ip, obj, idx):
     vc = ip.vc
+    if is_enum(obj) and isinstance(idx, tuple) and idx and idx[0] == "slice" and \
+            all(isinstance(x, (int, type(None))) for x in idx[1:]):
+        return enum_map(obj, lambda d: d[slice(idx[1], idx[2], idx[3])])
     if isinstance(idx, tuple) and idx and idx[0] == "slice":
         _, lo, hi, st = idx
         if st is not None:
@@ -415,6 +423,18 @@ def subscript(ip, obj, idx):
             if m:
                 return m(ip, obj, idx)
         raise Unsupported(f"slice of {type(obj).__name__}")
+    if is_enum(obj):
+        if isinstance(idx, int):
+            if any(not (-len(d) <= idx < len(d)) for d in obj.enum):
+                obj = vc.concretize(obj)
+                return subscript(ip, obj, idx)
+            return enum_map(obj, lambda d: d[idx])
+        if isinstance(idx, tuple) and idx and idx[0] == "slice" and \
+                all(isinstance(x, (int, type(None))) for x in idx[1:]):
+            return enum_map(obj, lambda d: d[slice(idx[1], idx[2], idx[3])])
+        return subscript(ip, vc.concretize(obj), idx)
+    if is_enum(idx):
+        idx = vc.concretize(idx)
     if isinstance(obj, (tuple, PList, str)):
         items = obj.items if isinstance(obj, PList) else obj
         if isinstance(idx, bool):
@@ -441,7 +461,7 @@ def subscript(ip, obj, idx):
                 return obj.d[k]
             raise RaiseEx("KeyError", repr(k))
         for k in obj.d:
-            if isinstance(k, (int, str)) and vc.decide(zeq(idx, k)):
+            if isinstance(k, (int, str)) and vc.decide(ip.values_eq(idx, k)):
                 return obj.d[k]
         raise RaiseEx("KeyError", "symbolic key")
     if isinstance(obj, Sym) and z3.is_string(obj.t):
@@ -494,9 +514,12 @@ def store_subscript(ip, obj, idx, v):
     if isinstance(obj, PDict):
         if isinstance(idx, Sym):
             for k in list(obj.d):
-                if isinstance(k, (int, str)) and vc.decide(zeq(idx, k)):
+                if isinstance(k, (int, str)) and vc.decide(ip.values_eq(idx, k)):
                     obj.d[k] = v
                     return
+            if is_enum(idx):
+                obj.d[vc.concretize(idx)] = v
+                return
             raise Unsupported("store of a new symbolic key into a concrete-shape dict")
         obj.d[ip.hashable(idx)] = v
         return
@@ -559,7 +582,7 @@ def get_attribute(ip, obj, name):
         if name in sch.attrs:
             spec = sch.attrs[name]
             if spec[0] == "enum":
-                return vc.concretize(spec[1](obj.t), spec[2])
+                return mk_enum(spec[1](obj.t), spec[2])
             if spec[0] == "sym":
                 return wrap(spec[1](obj.t), spec[2] if len(spec) > 2 else None)
             if spec[0] == "py":
@@ -631,6 +654,9 @@ def get_attribute(ip, obj, name):
 
 def call_method(ip, obj, name, args, kwargs):
     vc = ip.vc
+    if is_enum(obj):
+        obj = vc.concretize(obj)
+    args = [vc.concretize(x) if is_enum(x) and isinstance(obj, str) else x for x in args]
     if isinstance(obj, PList):
         return plist_method(ip, obj, name, args, kwargs)
     if isinstance(obj, PDict):
@@ -744,7 +770,7 @@ def pdict_method(ip, obj, name, args, kwargs):
         k = args[0]
         if isinstance(k, Sym):
             for kk in d:
-                if isinstance(kk, (int, str)) and vc.decide(zeq(k, kk)):
+                if isinstance(kk, (int, str)) and vc.decide(ip.values_eq(k, kk)):
                     return d[kk]
             return default
         try:
@@ -939,6 +965,8 @@ def symmap_method(ip, m, name, args, kwargs):
 
 def b_len(ip, args, kwargs):
     v = args[0]
+    if is_enum(v):
+        v = ip.vc.concretize(v)
     if isinstance(v, (tuple, str)):
         return len(v)
     if isinstance(v, PList):
@@ -1019,6 +1047,8 @@ def b_isinstance(ip, args, kwargs):
     if isinstance(cls, PyFunc):
         pyname = cls.name
     if pyname in ("int", "str", "bool", "float", "list", "tuple", "dict", "set"):
+        if is_enum(v):
+            return pyname == "str"
         if isinstance(v, Sym):
             t = v.t
             if v.schema:
@@ -1040,7 +1070,7 @@ def b_isinstance(ip, args, kwargs):
         short = (cls.key if isinstance(cls, ClassRef) else cls.dotted).split(":")[-1].split(".")[-1]
         if "class" in sch.attrs:
             # the concrete class is an enum attribute of the abstract object
-            cname = ip.vc.concretize(sch.attrs["class"][1](v.t), sch.attrs["class"][2])
+            cname = ip.vc.concretize(mk_enum(sch.attrs["class"][1](v.t), sch.attrs["class"][2]))
             return short == cname or short in C.SUBCLASS.get(cname, ())
         return short in sch.classes
     if isinstance(v, Struct):
